@@ -398,7 +398,17 @@ impl Debugee {
                 let tracee_ecx = if tracee.pid == ecx.pid_on_focus() {
                     ecx
                 } else {
-                    let location = weak_error!(tracee.location(self))?;
+                    let Some(location) = weak_error!(tracee.location(self)) else {
+                        // the thread executes code that belongs to no known object
+                        // (vDSO, anonymous mapping): it is still a thread of the debugee
+                        return Some(ThreadSnapshot {
+                            in_focus: false,
+                            thread: tracee,
+                            bt: None,
+                            place: None,
+                            focus_frame: None,
+                        });
+                    };
                     _tracee_ecx = ExplorationContext::new(location, 0);
                     &_tracee_ecx
                 };
